@@ -489,3 +489,73 @@ def a12(ctx):
     if not obs:
         raise AnalysisError("PostMethod.handle: create_member call not found")
     return obs
+
+
+@rule("C12", "A13", floor=20, kind="N",
+      desc="a matching card is answered under the href that addresses it: what reaches create_href is an unquoted path "
+           "(same obligations as C16/Q2) - names quoted during the traversal are quoted again on the way out")
+def a13(ctx):
+    from .c16 import q2
+    return q2(ctx)
+
+
+@rule("C12", "A14", floor=3, kind="S",
+      desc="the comparison primitives fit what the collations hand them: _match either calls methods / operators of its "
+           "operands (any type), or - when it names a primitive of a fixed type (`str.startswith`) - every collation passes "
+           "operands of that type; the casemap collations compare encoded bytes, on which a str-bound primitive raises "
+           "TypeError and the whole query fails")
+def a14(ctx):
+    mod = ctx.P.modules["xandikos.collation"]
+    table = mod.const_exprs.get("collations")
+    if not isinstance(table, ast.Dict):
+        raise AnalysisError("xandikos.collation.collations is no longer a dict display")
+    mf = ctx.func(COLL + "._match")
+    # primitives bound to a type, in _match and in the module-level tables it reads
+    scope = [mf.node]
+    for nm in {x.id for x in ast.walk(mf.node) if isinstance(x, ast.Name) and isinstance(x.ctx, ast.Load)}:
+        if nm in mod.const_exprs and nm != "collations":
+            scope.append(mod.const_exprs[nm])
+    bound = {}
+    for sc in scope:
+        for x in ast.walk(sc):
+            if isinstance(x, ast.Attribute) and isinstance(x.value, ast.Name) and x.value.id in ("str", "bytes") \
+                    and x.attr in ("startswith", "endswith", "__contains__", "__eq__", "find", "index", "count"):
+                bound.setdefault(x.value.id, []).append("%s.%s" % (x.value.id, x.attr))
+    obs = []
+
+    def kind(e, fn):
+        """'bytes' if the operand expression encodes its text, 'str' otherwise."""
+        enc = dec = False
+        for x in ast.walk(e):
+            if isinstance(x, ast.Call) and isinstance(x.func, ast.Attribute):
+                enc = enc or x.func.attr == "encode"
+                dec = dec or x.func.attr == "decode"
+            if isinstance(x, ast.Call) and isinstance(x.func, ast.Name):
+                g = mod.functions.get(x.func.id)
+                if g is not None and not isinstance(g.node, ast.Lambda):
+                    for y in ast.walk(g.node):
+                        if isinstance(y, ast.Call) and isinstance(y.func, ast.Attribute):
+                            enc = enc or y.func.attr == "encode"
+                            dec = dec or y.func.attr == "decode"
+        return "bytes" if enc and not dec else "str"
+
+    for k, v in zip(table.keys, table.values):
+        name = k.value if isinstance(k, ast.Constant) else src(k)
+        fn = v
+        if isinstance(fn, ast.Name):
+            f_ = mod.functions.get(fn.id)
+            fn = f_.node if f_ is not None else fn
+        if not isinstance(fn, (ast.Lambda, ast.FunctionDef)):
+            raise AnalysisError("collation %s is not a lambda / function of the module" % name)
+        calls = [x for x in ast.walk(fn) if isinstance(x, ast.Call) and len(x.args) >= 2 and not (isinstance(x.func, ast.Attribute) and x.func.attr in ("encode", "decode"))
+                 and (dotted(x.func) or "").split(".")[-1].lstrip("_").startswith("match")]
+        kinds = sorted({kind(a, fn) for c in calls for a in c.args[:2]})
+        wrong = [t for t in bound if kinds and any(kd != t for kd in kinds)]
+        obs.append(ctx.ob(not wrong, "xandikos.collation.collations[%r]" % name, "%s:%d" % (mod.rel, v.lineno),
+                          "collation %s hands _match operands its primitives accept" % name,
+                          "operands: %s; type-bound primitives: %s" % ("/".join(kinds) or "?", ", ".join(sorted(sum(bound.values(), []))) or "none"),
+                          "collation %s passes %s to _match, which dispatches to %s: the unbound method of another type raises TypeError, "
+                          "so every %s query under this collation fails with a server error"
+                          % (name, "/".join(kinds), ", ".join(sorted(sum((bound[t] for t in wrong), []))) if wrong else "",
+                             " / ".join(sorted({b.split(".")[1].replace("startswith", "starts-with").replace("endswith", "ends-with") for t in wrong for b in bound[t]})) if wrong else "")))
+    return obs
